@@ -9,14 +9,21 @@ continuation bits are 1..1 0, the leading septet is not empty; the reader applie
 octets), with prefix and trailer symbolic, returns exactly the value's bits, the sign, and the index just past the
 written octets.  Out-of-range values are rejected by the writer's own assertions.
 
-NOT decided (not claimed): the float writers (value % 1 * 128**p is binary floating point), latitude / longitude /
-info-time against the XML formulas.  Those clauses quantify over floating-point values that no static argument in
-reach bounds; see DESIGN.md."""
+Also decided: the info-time clause for datetime arguments — the packing of the six calendar fields into 40 bits (the real
+write_infotime interpreted on a stand-in datetime object with symbolic fields) against the bit slices the XML view reads
+them from (read off its f-string): every field is transmitted with all its bits, most significant first, exactly where
+the view slices it.
+
+NOT decided (not claimed): the float writers (value % 1 * 128**p is binary floating point), latitude / longitude
+against the XML formulas, info-time given as text (strptime).  Those clauses quantify over floating-point values that no
+static argument in reach bounds; see DESIGN.md."""
 from __future__ import annotations
 
 from sa.bitabs import ABits, AInt, Abort, F, Interp, PartialRaise, PathRaise, explore
 from sa.bitabs_models import ANeg
-from sa.model import AnalysisError, ClassRef
+from sa.bitabs import AObj
+from sa.model import AnalysisError, ClassInfo, ClassRef
+import ast
 
 MOD = "motorola.mbxml"
 
@@ -34,7 +41,7 @@ def run(ctx):
     C = ClassRef(mb)
     ctx.explanation = __doc__.split("\n", 2)[2].strip()
     ctx.assumptions = [
-        "only the integer clauses are decided; float / latitude / longitude / info-time clauses are not claimed",
+        "the integer clauses and the info-time packing (datetime arguments) are decided; float / latitude / longitude clauses and info-time given as text are not claimed",
         "models of bin(), str slicing / reversal, int(s, 2), int.to_bytes, bytes concatenation in sa/bitabs_models.py",
     ]
     ctx.rule("uintvar/canonical", "write_uintvar: for every value of a bit length the output has ceil(L/7) octets (1 for zero), continuation bit set on all but the last, first septet not zero")
@@ -52,6 +59,8 @@ def run(ctx):
         ctx.saw_func(f)
     unsigned(ctx, repo, C, wu, ru)
     signed(ctx, repo, C, ws, rs)
+    with ctx.guard("info-time"):
+        infotime(ctx, repo, mb, C)
     ctx.require("uintvar/canonical", 5)
     ctx.require("uintvar/read-inverse", 5)
     ctx.require("sintvar/canonical", 10)
@@ -298,3 +307,87 @@ def signed(ctx, repo, C, ws, rs):
     res = explore(run_big, max_paths=8)
     rejected = all(k == "raise" and v.exc == "AssertionError" for _, (k, v) in res)
     ctx.ob("sintvar/range", "magnitude 2^31 .. 2^32-1", rejected, "AssertionError on every path" if rejected else f"{[(k, str(v)[:60]) for _, (k, v) in res][:2]}", ws.loc)
+
+
+INFOTIME_FIELDS = (("year", 14), ("month", 4), ("day", 5), ("hour", 5), ("minute", 6), ("second", 6))   # calendar field, bits it needs
+
+
+def infotime(ctx, repo, mb, C):
+    """write_infotime(datetime) against the slices of the XML view"""
+    ctx.rule("infotime/fields", "write_infotime(datetime): each of year, month, day, hour, minute, second is transmitted with all the bits it needs, "
+                                "most significant first, exactly in the slice of the 40 bits from which the XML view reads that field")
+    wi = repo.find_method(mb, "write_infotime")
+    if wi is None:
+        raise AnalysisError("MBXML.write_infotime not found")
+    ctx.saw_func(wi)
+    # ---- the reader: the one f-string of the module whose parts are all ba2int(<bits>[a:b]) — at least six of them
+    module = mb.module
+    views = []
+    for n in ast.walk(module.tree):
+        if isinstance(n, ast.JoinedStr):
+            parts = [v for v in n.values if isinstance(v, ast.FormattedValue)]
+            sl = []
+            for v in parts:
+                c = v.value
+                if isinstance(c, ast.Call) and ast.unparse(c.func).split(".")[-1] == "ba2int" and len(c.args) == 1 and isinstance(c.args[0], ast.Subscript) \
+                        and isinstance(c.args[0].slice, ast.Slice):
+                    sl.append(c.args[0].slice)
+            if len(parts) >= 6 and len(sl) == len(parts):
+                views.append((n, sl))
+    if len(views) != 1:
+        raise AnalysisError(f"info-time XML view: {len(views)} f-strings made of ba2int(bits[a:b]) parts found, one expected")
+    node, slices = views[0]
+    if len(slices) != len(INFOTIME_FIELDS):
+        raise AnalysisError(f"info-time XML view: {len(slices)} fields, {len(INFOTIME_FIELDS)} expected")
+    spans = []
+    for s_ in slices:
+        def cv(e):
+            if e is None:
+                return None
+            try:
+                return repo.fold_expr(e, module, None)
+            except Exception:
+                raise AnalysisError("info-time XML view: slice bound not constant")
+        lo, hi, step = slice(cv(s_.lower), cv(s_.upper), cv(s_.step)).indices(40)
+        if step != 1:
+            raise AnalysisError("info-time XML view: stepped slice")
+        spans.append((lo, hi))
+    # ---- the writer on a stand-in datetime with symbolic fields
+    stub = ClassInfo(ast.parse("class datetime:\n"
+                               "    def timetuple(self):\n        return (self.year, self.month, self.day, self.hour, self.minute, self.second, 0, 1, -1)\n"
+                               "    def replace(self, **kw):\n        return self\n").body[0], module)
+    stub.stands_for_external = "datetime"
+    I = Interp(repo)
+
+    def run_w(st):
+        I.st = st
+        dt = AObj(stub, {name: AInt([I.atom_form((name, j)) for j in range(w)]) for name, w in INFOTIME_FIELDS})
+        return I.call(wi, [C, dt], {})
+
+    res = explore(run_w, max_paths=8)
+    if len(res) != 1 or res[0][1][0] != "ok":
+        k, v = res[0][1]
+        if (k == "abort" and isinstance(v, PartialRaise) or k == "raise") and v.exc in ("OverflowError", "AssertionError", "ValueError"):
+            ctx.ob("infotime/fields", f"{wi.qualname}", False, f"the writer raises for calendar values that fit the fields: {v}", wi.loc)
+            return
+        raise AnalysisError(f"{wi.qualname}: {len(res)} path(s), first {k}: {v}")
+    I.st = res[0][0]
+    out = res[0][1][1]
+    if not isinstance(out, ABits) or out.kind != "bytes" or len(out.items) != 40:
+        ctx.ob("infotime/fields", f"{wi.qualname}", False, f"the writer returns {out!r}, 5 octets expected", wi.loc)
+        return
+    ob = I.simp_bits(out.items)
+    bad = []
+    for (name, need), (lo, hi) in zip(INFOTIME_FIELDS, spans):
+        w = hi - lo
+        if w < need:
+            bad.append(f"{name}: the view reads {w} bits, the field needs {need}")
+            continue
+        want = [F(0, 0)] * (w - need) + [I.simp(I.atom_form((name, j))) for j in range(need - 1, -1, -1)]
+        diff = [lo + i for i, (a, b) in enumerate(zip(ob[lo:hi], want)) if a != b]
+        if diff:
+            bad.append(f"{name}: bits {diff[:6]} of the 40 written are not the field's bits in the slice [{lo}:{hi}] the view reads (a bit of the field is dropped, moved or mixed)")
+    covered = sorted(p for lo, hi in spans for p in range(lo, hi))
+    if covered != list(range(40)):
+        bad.append("the view's slices do not partition the 40 bits")
+    ctx.ob("infotime/fields", f"{wi.qualname}", not bad, "; ".join(bad[:3]) or f"6 fields in the slices {spans}", wi.loc)
